@@ -24,6 +24,9 @@ def m(prop, rel, old, new, expect, rules=(), note=""):
 
 
 # ---------------------------------------------------------------- C01
+m('C01', 'operators/scan.py', '                value = state\n                if has_state is False:\n                    value = seed() if callable(seed) else copy.deepcopy(seed)\n                state = accumulator(value, i)', '                value = state\n                if state is False:\n                    value = seed() if callable(seed) else copy.deepcopy(seed)\n                state = accumulator(value, i)', 'fire', ['AG-3b', 'AG-3'], 'hand mutant: obs: unset test on the value (first item folds from None)')
+m('C01', 'operators/scan.py', '                state = accumulator(value, i)\n                has_state = True', '                state = accumulator(value, i)\n                has_state = False', 'fire', ['AG-3b', 'AG-3'], 'hand mutant: obs: has_state never set (every item folds from seed)')
+m('C01', 'operators/scan.py', '                    value = state\n                    if has_state is False:\n                        value = seed() if callable(seed) else copy.deepcopy(seed)\n                    state = terminator(value)', '                    value = state\n                    if state is False:\n                        value = seed() if callable(seed) else copy.deepcopy(seed)\n                    state = terminator(value)', 'fire', ['AG-3b', 'AG-3'], 'hand mutant: obs: terminator on None for empty source')
 m('C01', 'operators/do_action.py', '                        on_next(i.item)', '                        on_next(i)', 'fire', ['AG-3d'], 'hand mutant: event instead of item')
 m('C01', 'operators/do_action.py', '                    if on_completed is not None:\n                        on_completed(i.key)\n', '                    pass\n', 'fire', ['AG-3d'], 'hand mutant: never calls on_completed per key')
 m('C01', 'operators/do_action.py', '                        on_error(i.error)', '                        on_error(i)', 'fire', ['AG-3d'], 'hand mutant: event to on_error')
@@ -53,6 +56,12 @@ m("C02", "operators/last.py", "            state = None\n\n            def on_ne
 m("C02", "operators/take.py", "                    observer.on_next(i)\n                    i.store.del_key(state, i.key)", "                    i.store.del_key(state, i.key)\n                    observer.on_next(i)", "silent", note="release before forwarding")
 m("C02", "operators/first.py", "                    value = i.store.get_state(state, i.key)\n                    if value is False:", "                    seen = i.store.get_state(state, i.key)\n                    if seen is False:", "silent", note="renamed local")
 # ---------------------------------------------------------------- C03
+m('C03', 'state/with_store.py', '            store.set_topology(topology)\n            subscribe_all()', '            subscribe_all()', 'fire', ['MX-6'], 'hand mutant: sources: topology never registered')
+m('C03', 'state/with_store.py', '            store.set_topology(topology)\n            subscribe_all()', '            subscribe_all()\n            store.set_topology(topology)', 'fire', ['MX-6'], 'hand mutant: sources: registered after subscribing')
+m('C03', 'state/with_store.py', '        observer.on_next(ProbeStateTopology(topology))\n\n        if all(', '        if all(', 'fire', ['MX-6'], 'hand mutant: sources: no probe')
+m('C03', 'operators/last.py', '                elif type(i) is rs.OnErrorMux:\n                    observer.on_next(i)\n                    i.store.del_key(state, i.key)', '                elif type(i) is rs.OnErrorMux:\n                    observer.on_next(i)\n                    i.key.del_key(state, i.key)', 'fire', ['EV-1'], 'mutant: a method of the key tuple in the Error branch')
+m('C03', 'operators/last.py', '                        observer.on_next(rs.OnNextMux(i.key, value, i.store))', '                        observer.on_next(rs.OnNextMux(i.key, value, i.key))', 'fire', ['EV-1'], 'mutant: constructed event carries the key as its store')
+m('C03', 'operators/group_by.py', '                elif type(i) is rs.OnErrorMux:\n                    for k in i.store.iterate_map(state, i.key):', '                elif type(i) is rs.OnErrorMux:\n                    for k in i.store.iterate_map(state, i.item):', 'fire', ['EV-1', 'ST-8'], 'mutant: .item of an OnErrorMux')
 m('C03', 'operators/group_by.py', '                    for k in i.store.iterate_map(state, i.key):\n                        index = i.store.get_map(state, i.key, k)\n                        observer.on_next(i._replace(key=(index, i.key)))\n                        i.store.del_map(state, i.key, k)\n                    i.store.del_key(state, i.key)\n                    outer_observer.on_next(i)\n\n                elif type(i) is rs.state.ProbeStateTopology', '                    for k in i.store.iterate_map(i.key, state):\n                        index = i.store.get_map(state, i.key, k)\n                        observer.on_next(i._replace(key=(index, i.key)))\n                        i.store.del_map(state, i.key, k)\n                    i.store.del_key(state, i.key)\n                    outer_observer.on_next(i)\n\n                elif type(i) is rs.state.ProbeStateTopology', 'fire', ['ST-8'], 'hand mutant: swap iterate_map args in Error branch')
 m("C03", "data/roll.py", "if count > 0:", "if count >= 0:", "fire", ["LV"])
 m("C03", "data/split.py", "                elif type(i) is rs.OnCreateMux:\n                    i.store.add_key(state, i.key)\n", "                elif type(i) is rs.OnCreateMux:\n", "fire", ["LV"])
@@ -108,6 +117,11 @@ m("C08", "operators/tee_map.py", "                if i == n-1:\n                
 m("C08", "operators/tee_map.py", "append_count = (x.key[0]+1) * n - len(queue)", "append_count = x.key[0] * n - len(queue)", "fire", ["TM-5"])
 m("C08", "operators/tee_map.py", "append_count = (x.key[0]+1) * n - len(queue)", "append_count = n * (1 + x.key[0]) - len(has_next)", "silent")
 # ---------------------------------------------------------------- C09
+m('C09', 'operators/scan.py', '                        if value is rs.state.markers.STATE_NOTSET:\n                            value = seed() if callable(seed) else copy.deepcopy(seed)\n                        acc = terminator(value)', '                        if value is rs.state.markers.STATE_NOTSET:\n                            value = seed() if not callable(seed) else copy.deepcopy(seed)\n                        acc = terminator(value)', 'fire', ['SD-1'], 'hand mutant: callable inverted (terminator, empty key)')
+m('C09', 'operators/scan.py', '                    if has_state is False:\n                        value = seed() if callable(seed) else copy.deepcopy(seed)\n                    state = terminator(value)', '                    if has_state is False:\n                        value = copy.deepcopy(seed) if callable(seed) else seed()\n                    state = terminator(value)', 'fire', ['SD-1'], 'hand mutant: callable arms swapped (obs)')
+m('C09', 'operators/scan.py', '                value = state\n                if has_state is False:\n                    value = seed() if callable(seed) else copy.deepcopy(seed)\n                state = accumulator(value, i)', '                value = state\n                if state is False:\n                    value = seed() if callable(seed) else copy.deepcopy(seed)\n                state = accumulator(value, i)', 'fire', ['AG-3b', 'AG-3'], 'hand mutant: obs: unset test on the value (first item folds from None)')
+m('C09', 'operators/scan.py', '                state = accumulator(value, i)\n                has_state = True', '                state = accumulator(value, i)\n                has_state = False', 'fire', ['AG-3b', 'AG-3'], 'hand mutant: obs: has_state never set (every item folds from seed)')
+m('C09', 'operators/scan.py', '                    value = state\n                    if has_state is False:\n                        value = seed() if callable(seed) else copy.deepcopy(seed)\n                    state = terminator(value)', '                    value = state\n                    if state is False:\n                        value = seed() if callable(seed) else copy.deepcopy(seed)\n                    state = terminator(value)', 'fire', ['AG-3b', 'AG-3'], 'hand mutant: obs: terminator on None for empty source')
 m('C09', 'operators/count.py', 'lambda acc, i: acc + 1, 0', 'lambda acc, i: acc + (1 if i else 0), 0', 'fire', ['SC-2'], 'hand mutant: count skips falsy')
 m('C09', 'operators/count.py', 'lambda acc, i: acc + 1, 0', 'lambda acc, i: acc + 1, 1', 'fire', ['SC-2'], 'hand mutant: count seed 1')
 m('C09', 'operators/count.py', 'lambda acc, i: acc + 1, 0', 'lambda acc, i: acc + 1 if i is not None else acc, 0', 'fire', ['SC-2'], 'hand mutant: count skips None')
@@ -166,6 +180,7 @@ m("C12", "math/formal/variance.py", "v = _moment(acc, mean, 2)", "v = _moment(ac
 m("C12", "math/variance.py", "m = m + (i - m) / k", "m = (m * (k - 1) + i) / k", "silent", note="algebraically equal mean update")
 m("C12", "math/min.py", "if acc is None or i < acc:", "if acc is None or acc > i:", "silent")
 # ---------------------------------------------------------------- C13
+m('C13', 'operators/last.py', '                elif type(i) is rs.OnErrorMux:\n                    observer.on_next(i)\n                    i.store.del_key(state, i.key)', '                elif type(i) is rs.OnErrorMux:\n                    observer.on_next(i)\n                    i.key.del_key(state, i.key)', 'fire', ['EV-1'], 'mutant: a method of the key tuple in the Error branch')
 m('C13', 'operators/group_by.py', '                    for k in i.store.iterate_map(state, i.key):\n                        index = i.store.get_map(state, i.key, k)\n                        observer.on_next(i._replace(key=(index, i.key)))\n                        i.store.del_map(state, i.key, k)\n                    i.store.del_key(state, i.key)\n                    outer_observer.on_next(i)\n\n                elif type(i) is rs.state.ProbeStateTopology', '                    for k in i.store.iterate_map(i.key, state):\n                        index = i.store.get_map(state, i.key, k)\n                        observer.on_next(i._replace(key=(index, i.key)))\n                        i.store.del_map(state, i.key, k)\n                    i.store.del_key(state, i.key)\n                    outer_observer.on_next(i)\n\n                elif type(i) is rs.state.ProbeStateTopology', 'fire', ['ST-8'], 'hand mutant: swap iterate_map args in Error branch')
 m("C13", "operators/filter.py", "                    except Exception as e:", "                    except ValueError as e:", "fire", ["ER-1"])
 m("C13", "operators/map.py", "observer.on_next(rs.OnErrorMux(i.key, e, i.store))", "observer.on_next(rs.OnErrorMux(i.key, e))", "fire", ["ER-1"])
